@@ -201,6 +201,11 @@ pub mod fs {
             OpenOptions::new().read(true).open(path)
         }
 
+        /// Pass-through; the clone shares the open file description (and the handle number) of the original.
+        pub fn try_clone(&self) -> io::Result<File> {
+            Ok(File { inner: self.inner.try_clone()?, path: self.path.clone(), handle: self.handle })
+        }
+
         pub fn metadata(&self) -> io::Result<std::fs::Metadata> {
             super::sched::yield_point();
             let mut guard = fslog::lock();
